@@ -4,7 +4,7 @@ from . import hashing as H
 
 
 def check(ck):
-    H.check_determinism_taint(ck, "C03.R1")
-    H.check_ordered_iteration(ck, "C03.R2")
-    H.check_update_protocol(ck, "C03.R3")
-    H.check_descent_complete(ck, "C03.R4")
+    ck.run(H.check_determinism_taint, ck, "C03.R1")
+    ck.run(H.check_ordered_iteration, ck, "C03.R2")
+    ck.run(H.check_update_protocol, ck, "C03.R3")
+    ck.run(H.check_descent_complete, ck, "C03.R4")
